@@ -28,6 +28,7 @@ class MemTransport(asyncio.Transport):
         self.fail_writes: Optional[BaseException] = None   # next write raises on the socket
         self.eof_sent = False
         self.reading_paused = False
+        self.slow_close = False      # close() cannot flush the send buffer (peer stopped reading): no connection_lost
 
     # -- asyncio.Transport API -------------------------------------------------------
     def set_protocol(self, protocol):
@@ -90,6 +91,8 @@ class MemTransport(asyncio.Transport):
             return
         self._closing = True
         self._conn_lost += 1
+        if self.slow_close:
+            return          # stays half closed until aborted (the library's own disconnect time-out gives up waiting)
         self.conn.enqueue_eof(self.side)
         self.conn.closed_by(self.side)
         self.net.world.loop.call_soon(self._call_connection_lost, None)
